@@ -1,5 +1,5 @@
 ENGINES = [
-    {"name": "E1-enum", "path": "/verif/cmd, /verif/internal", "serves_properties": ["C06", "C08", "C12", "C13", "C16", "C18"],
+    {"name": "E1-enum", "path": "/verif/cmd, /verif/internal", "serves_properties": ["C06", "C07", "C08", "C12", "C13", "C16", "C18"],
      "kind_free_text": "bounded-exhaustive enumerator over explicit alphabets, every case executed on the real code and judged by a Go reference model"},
 ]
 NOTES = "All checks: ./run.sh <id> quick|thorough rebuilds the harness against /repo's working tree (replace directive) and rewrites evidence/<id>.json. known_findings.json is read-only at run time."
@@ -105,4 +105,11 @@ CHECKS["C02"] = dict(
     technique="enumeration of programs (hostile-name matrix, corpus, shape fixtures) x feature configurations, each generated by the generator under check and compiled by the real Go compiler",
     text="1741 (quick) / ~7000 (thorough) generated packages: a hostile-name matrix (21 name positions x 91 names: keywords, digits-first, quotes, backslash, backquote, newline, Unicode, empty, names of generated identifiers / imported packages / template variables; 15 collision pairs x 6 positions), every non-empty corpus spec x {default, all} (thorough: + client-only, server-only, large specs), the feature-subset sweep on a feature-rich spec x convenient errors on/off (quick: <= 2 or >= 10 of the 11 features, thorough: all 2048 subsets) and 5 shape fixtures. Oracle: generation ends with an ordinary error, or every written package builds with `go build` (packages with generated test files are also type-checked through `go vet`); a panic, ErrGoFormat or a compile error is a violation.",
     note="Trusted: the Go toolchain. Five known-finding classes (names colliding with fixed generated identifiers, properties named like generated methods, newline in a name, pattern responses sharing a schema, global security + webhooks), each matched by position and name so that any other failure is reported. Random specs are replaced by the matrices.",
+)
+
+CHECKS["C07"] = dict(
+    category="exploration", engine="E1-enum",
+    technique="enumeration of reference-graph topologies x all subsets of reference sites inlined by an independent inliner, parse results compared structurally; complete list of cycle shapes per component kind",
+    text="14 base documents (reference graphs over all 8 component kinds: chains, one target from 2-4 sites under different names / paths / operations / codes, all kinds at once; 5 multi-file topologies incl. relative references through a sub-directory and a back reference into the root) with 75 reference sites; every non-empty subset of a document's sites (all 2^r up to r = 10/14, else all subsets of size <= 2 and >= r-1) is inlined on the raw JSON tree and must parse to the same *openapi.API modulo Ref/location fields, generate iff the referencing document generates, and Expand + re-parse must give an equivalent API. 1-, 2-, 3-cycles of every kind, 8 schema-recursion shapes, cycles across files, reference chains and nestings around the depth limit must end with recursive types / a located infinite-recursion error / an error - never a panic or non-termination (15-minute watchdog; parsing is cubic in nesting depth).",
+    note="Trusted: the 60-line inliner and the reflective dump (ignores Ref, Pointer, Locator, yaml nodes). Generated code is checked for successful generation (gofmt-clean), not behaviour; compilation of such packages is C02's. Known finding: Expand drops example values. Random DAGs are replaced by the topology list.",
 )
